@@ -52,7 +52,7 @@ func famC12(r *Run) {
 		want := make([]string, len(docs))
 		for k, d := range docs {
 			fresh, _ := jmespath.Compile(text)
-			want[k] = canon(obsOfSearchCompiled(fresh, deepCopy(d)), perm)
+			want[k] = canonFor(obsOfSearchCompiled(fresh, deepCopy(d)), perm, text, d)
 		}
 		r.mark("G-conc", text, root)
 		var wg sync.WaitGroup
@@ -70,7 +70,7 @@ func famC12(r *Run) {
 					} else {
 						got = obsOfSearchCompiled(jp, docs[k])
 					}
-					if s := canon(got, perm); s != want[k] {
+					if s := canonFor(got, perm, text, docs[k]); s != want[k] {
 						mu.Lock()
 						if bad == "" {
 							bad = fmt.Sprintf("goroutine %d call %d on document %d: got %s, alone it returns %s", gi, c, k, s, want[k])
@@ -150,6 +150,7 @@ func famC12(r *Run) {
 		r.count("conc:shared-pairs")
 		r.addSearch("G-conc-shared", pr[0], deepCopy(pristine), modeFor(pr[0], pristine))
 	}
+	famC12extra(r)
 }
 
 // ---- C19 ----
@@ -200,14 +201,25 @@ func famC19(r *Run) {
 		seeds = append(seeds, c.Expr)
 	}
 	badInputs := []string{"", "{", "[1,", "nul", "{\"a\":}", "1 2", "'x'", "{\"a\":1}}", "\xff", "[1e999]"}
+	// strings a printing routine could misread (format verbs, escapes, HTML, line separators)
+	cliStrs := []string{"100%", "a%20b%2Fc", "100%% sure", "%s", "%d items", "%v", "%!", "%[1]s", "%%", "tab\there", "<&>", "\u2028", "back\\slash", "%x%y%z", "50%\n"}
+	cliKeys := []string{"pct", "cpu%", "k", "%s"}
 	for i := 0; i < r.n(260, 5000); i++ {
 		doc := g.rootDoc()
+		if m, ok := doc.(map[string]interface{}); ok && r.rng.Intn(3) == 0 {
+			m[cliKeys[r.rng.Intn(len(cliKeys))]] = cliStrs[r.rng.Intn(len(cliStrs))]
+			if r.rng.Intn(2) == 0 {
+				m["list"] = []interface{}{cliStrs[r.rng.Intn(len(cliStrs))], map[string]interface{}{cliKeys[r.rng.Intn(len(cliKeys))]: cliStrs[r.rng.Intn(len(cliStrs))]}}
+			}
+		}
 		var expr string
 		switch r.rng.Intn(6) {
 		case 0:
 			expr = r.mutate(seeds[r.rng.Intn(len(seeds))])
 		case 1:
 			expr = seeds[r.rng.Intn(len(seeds))]
+		case 2:
+			expr = []string{"@", "*", "list", "list[*]", "[@, list]", "pct", "k", "\"cpu%\"", "\"%s\"", "keys(@)", "list[1]", "to_string(@)", "join('%', [k, pct])"}[r.rng.Intn(13)]
 		default:
 			expr = g.expr(0, 4, hAny, doc).text(textOpts{})
 		}
